@@ -19,6 +19,7 @@ type ScriptCase struct {
 	Labels []string  `json:"labels,omitempty"` // generator-side classes (literal forms, comment positions, ...)
 	CmtAdj  bool     `json:"cmt_adj,omitempty"`
 	Witness bool     `json:"witness,omitempty"` // saved witness of a known defect: no law is skipped
+	Law     string   `json:"law,omitempty"`     // Pipeline unit: json | tick (which round trip is checked)
 	Mixed  bool      `json:"mixed,omitempty"` // some lambda has >= 2 operators of different precedence
 }
 
@@ -31,6 +32,7 @@ type nodeVar struct {
 	name  string
 	edge  string
 	props []prop // properties of the node the var refers to (nil: unknown)
+	kind  string
 }
 
 type sg struct {
@@ -45,6 +47,9 @@ type sg struct {
 	mixed bool
 	stmt  bool   // the next identifier starts a statement (canonical layout: new line)
 	last  []prop // properties of the node emitted last
+	piped bool   // the previous token was '|': the next identifier names a node
+	cur   string // node (or alert.handler) whose properties are being written
+	law   string // Pipeline unit: "json" | "tick"; the generator avoids what that round trip is known to lose (counted)
 }
 
 var varNames = []string{"x", "period", "crit", "db", "lambda", "Über", "v", "threshold", "name_1", "w", "data", "idVar", "every", "where_filter"}
@@ -55,7 +60,7 @@ func (s *sg) newName() string {
 }
 
 func (s *sg) eg() *eg {
-	return &eg{t: s.t, vars: map[string][]string{
+	return &eg{t: s.t, noCalls: s.law == "json", noBigInt: s.law == "json", count: s.r.Exclude, vars: map[string][]string{
 		"num":  append(append([]string{}, s.vars["int"]...), append(s.vars["float"], s.vars["lnum"]...)...),
 		"bool": append(append([]string{}, s.vars["bool"]...), s.vars["lbool"]...),
 		"str":  s.vars["str"],
@@ -74,9 +79,13 @@ func (s *sg) noteExpr(e *Expr) {
 
 func (s *sg) kw(w string)  { s.o.emit(tk{s: w, cls: "var"}) }
 func (s *sg) asgn()        { s.o.emit(tk{s: "=", cls: "asgn", ncb: true, nca: true}) }
-func (s *sg) pipe()        { s.o.emit(tk{s: "|", cls: "pipe"}) }
+func (s *sg) pipe()        { s.o.emit(tk{s: "|", cls: "pipe"}); s.piped = true }
 func (s *sg) dot()         { s.o.emit(tk{s: ".", cls: "dot"}) }
 func (s *sg) id(n string) {
+	if s.piped {
+		s.piped = false
+		s.cur = n
+	}
 	if s.stmt {
 		s.stmt = false
 		s.o.emit(tk{s: n, cls: "stmt"})
@@ -344,10 +353,53 @@ func (s *sg) call(name, kinds string) {
 	s.o.rparen()
 }
 
+// unsupported: per law of the Pipeline unit, the properties / handlers (key node.prop, alert.handler,
+// alert.handler.prop; "*" as node matches every node) that the round trip is known to lose (defect
+// families J2 and T2). The generator does not write them for that law and counts each avoided draw.
+var unsupported = map[string]map[string]string{
+	"json": {
+		"*.quiet": classJ2 + "quiet (nodes whose embedded chainnode is tagged json:\"-\")",
+		"+groupBy.quiet": "", "+alert.quiet": "", "+barrier.quiet": "", "+combine.quiet": "", "+httpOut.quiet": "", "+httpPost.quiet": "", "+log.quiet": "", "+sideload.quiet": "", "+deadman.quiet": "",
+	},
+	"tick": {
+		"*.quiet": classT2 + "quiet (rendered for eval only)", "+eval.quiet": "",
+	},
+}
+
+const (
+	classJ2 = "J2 pipeline JSON does not carry the property: "
+	classT2 = "T2 pipeline/tick does not render the property: "
+)
+
+func (s *sg) avoided(key string) bool {
+	if s.law == "" {
+		return false
+	}
+	tbl := unsupported[s.law]
+	class, bad := tbl[key]
+	if !bad {
+		if i := strings.Index(key, "."); i >= 0 {
+			class, bad = tbl["*"+key[i:]]
+		}
+	}
+	if ok, isOK := tbl["+"+key]; isOK && ok == "" { // explicit exception to a wildcard
+		bad = false
+	}
+	if bad {
+		s.r.Exclude(class)
+	}
+	return bad
+}
+
 func (s *sg) prop(p prop) {
+	key := s.cur + "." + p.name
+	if s.avoided(key) {
+		return
+	}
 	s.dot()
 	s.call(p.name, p.args)
 	s.o.label("prop-args:" + p.args)
+	s.o.label("prop:" + key)
 }
 
 func (s *sg) someProps(ps []prop, max int) {
@@ -929,11 +981,16 @@ func (s *sg) alert() {
 	nh := rapid.IntRange(0, 2).Draw(s.t, "nHandlers")
 	for i := 0; i < nh; i++ {
 		h := rapid.SampledFrom(handlers).Draw(s.t, "handler")
+		if s.avoided("alert." + h.name) {
+			continue
+		}
 		s.dot()
 		s.call(h.name, h.args)
 		s.o.label("handler:" + h.name)
+		s.cur = "alert." + h.name
 		s.someProps(h.props, 2)
 	}
+	s.cur = "alert"
 	if nh > 0 && s.pick(3, "alertTail") == 0 {
 		s.someProps([]prop{{"crit", "l"}, {"warn", "l"}, {"stateChangesOnly", "d?"}, {"all", ""}, {"idTag", "n"}}, 2)
 	}
@@ -995,6 +1052,7 @@ func (s *sg) chain() {
 		s.o.label("chain:from-var")
 		if len(nv.props) > 0 && s.pick(3, "propStmt") == 0 {
 			// a property set on a node held in a var: w.period(10s)
+			s.cur = nv.kind
 			s.someProps(nv.props, 2)
 			s.o.label("chain:property-on-var")
 		}
@@ -1006,18 +1064,30 @@ func (s *sg) chain() {
 		edge = s.node(edge)
 	}
 	if asVar && edge != "-" {
-		s.nodes = append(s.nodes, nodeVar{name, edge, s.last})
+		s.nodes = append(s.nodes, nodeVar{name, edge, s.last, s.cur})
 	}
 }
 
 func genScriptWith(r *kit.Rec) func(t *rapid.T) ScriptCase {
-	return func(t *rapid.T) ScriptCase { return genScript(r, t) }
+	return func(t *rapid.T) ScriptCase { return genScript(r, t, "") }
 }
 
-func genScript(r *kit.Rec, t *rapid.T) ScriptCase {
+// genPipelineWith: cases of the Pipeline unit; each case is checked against one law ("json" or "tick").
+func genPipelineWith(r *kit.Rec) func(t *rapid.T) ScriptCase {
+	return func(t *rapid.T) ScriptCase {
+		law := rapid.SampledFrom([]string{"json", "tick"}).Draw(t, "law")
+		return genScript(r, t, law)
+	}
+}
+
+func genScript(r *kit.Rec, t *rapid.T, law string) ScriptCase {
 	noise := rapid.SampledFrom([]int{0, 1, 1, 2}).Draw(t, "noise")
 	comments := rapid.IntRange(0, 3).Draw(t, "comments") != 0
-	s := &sg{r: r, t: t, o: newOut(t, noise, comments), vars: map[string][]string{}}
+	if law != "" {
+		// layout is the Script unit's subject
+		noise, comments = 0, rapid.IntRange(0, 3).Draw(t, "comments") == 0
+	}
+	s := &sg{r: r, t: t, o: newOut(t, noise, comments), vars: map[string][]string{}, law: law}
 	s.edge = rapid.SampledFrom([]string{"stream", "stream", "batch"}).Draw(t, "edge")
 	if rapid.IntRange(0, 9).Draw(t, "dbrp") == 0 {
 		s.o.emit(tk{s: "dbrp", cls: "var"})
@@ -1034,7 +1104,7 @@ func genScript(r *kit.Rec, t *rapid.T) ScriptCase {
 	for i := 0; i < nc; i++ {
 		s.chain()
 	}
-	c := ScriptCase{Script: s.o.finish(), Edge: s.edge, Vars: s.tmpl, CmtAdj: s.o.cmtAdj, Mixed: s.mixed}
+	c := ScriptCase{Script: s.o.finish(), Edge: s.edge, Vars: s.tmpl, CmtAdj: s.o.cmtAdj, Mixed: s.mixed, Law: law}
 	for l := range s.o.labels {
 		c.Labels = append(c.Labels, l)
 	}
